@@ -83,9 +83,33 @@ func (w *World) onEmit(p *OutPkt) {
 		logf = s.L.Notef
 	}
 
+	f, err := DecodeFrame(w.Ref, fec, p.Data)
+
 	// C10: size against the MTU in force
-	if lim := w.mtuAllowed(ep); len(p.Data) > lim {
-		s.Fail("C10", "mtu", "datagram-exceeds-mtu", "%s#%d: datagram of %d bytes exceeds MTU %d", key, p.Idx, len(p.Data), lim)
+	lim := w.mtuAllowed(ep)
+	if ep != nil && f != nil && f.HasFEC && !f.OOB {
+		// remember the largest MTU in force while the data packets of the current
+		// FEC group were emitted
+		g := f.FecSeq / uint32(fc[0]+fc[1])
+		if g != ep.fecGrp || !ep.fecGrpInit {
+			ep.fecGrp, ep.fecGrpInit, ep.fecGrpMTU = g, true, 0
+		}
+		if f.FecType == wFecData && lim > ep.fecGrpMTU {
+			ep.fecGrpMTU = lim
+		}
+	}
+	if len(p.Data) > lim {
+		if ep != nil && f != nil && f.HasFEC && f.FecType == wFecParity && len(p.Data) <= ep.fecGrpMTU {
+			// recorded finding (known_findings.txt): parity is as long as the longest
+			// data packet of its group, also when the MTU was reduced in mid-group
+			if w.ReportParityStraddle {
+				s.Fail("C10", "mtu", "parity-of-group-straddling-mtu-reduction", "%s#%d: parity datagram of %d bytes exceeds MTU %d; data packets of its FEC group were built under MTU %d", key, p.Idx, len(p.Data), lim, ep.fecGrpMTU)
+			} else {
+				s.Stats.Probe("known-finding-met:parity-of-group-straddling-mtu-reduction")
+			}
+		} else {
+			s.Fail("C10", "mtu", "datagram-exceeds-mtu", "%s#%d: datagram of %d bytes exceeds MTU %d", key, p.Idx, len(p.Data), lim)
+		}
 	}
 	if len(p.Data) == 0 {
 		s.Fail("C10", "mtu", "empty-datagram", "%s#%d: empty datagram", key, p.Idx)
@@ -94,7 +118,6 @@ func (w *World) onEmit(p *OutPkt) {
 		ep.Emitted++
 	}
 
-	f, err := DecodeFrame(w.Ref, fec, p.Data)
 	if err != nil {
 		s.Fail("C09", "wire", "unparseable", "%s#%d len=%d: %v", key, p.Idx, len(p.Data), err)
 		logf("emit %s#%d len=%d UNPARSEABLE %v", key, p.Idx, len(p.Data), err)
@@ -127,6 +150,15 @@ func (w *World) onEmit(p *OutPkt) {
 	}
 	wf.Frames++
 
+	if p.Post {
+		// After Close of the session the harness knows on this flow, datagrams may
+		// come from a successor session the listener created for the same peer
+		// (fresh FEC ids, fresh sn): layout, size, nonce and conv-independent
+		// checks above still apply, per-flow continuity does not.
+		wf = w.anonFlow(key + "/post")
+		wf.fecInit = false
+		ep = nil
+	}
 	if f.HasFEC && !f.OOB {
 		w.checkFEC(key, p, f, wf, fc[0], fc[1])
 	}
@@ -209,6 +241,9 @@ func (w *World) notePush(key string, p *OutPkt, ep *Endpoint, wf *wireFlow, sg *
 	} else {
 		wf.Retrans++
 		s.Stats.Probe("retransmission-on-wire")
+		if w.CheckOnce {
+			s.Fail("C18", "clean-path", "retransmission", "%s#%d: sn %d transmitted %d times on a clean path", key, p.Idx, sg.Sn, info.n+1)
+		}
 		if info.hash != h || info.ln != len(sg.Data) {
 			s.Fail("C09", "wire", "retransmission-differs", "%s#%d: sn %d retransmitted with different payload (len %d vs %d)", key, p.Idx, sg.Sn, len(sg.Data), info.ln)
 		}
